@@ -557,6 +557,15 @@ func (ex *Exec) havocTarget(st *State, mt ModTarget, env *Env, owner string) {
 	e := mt.E
 	if mt.Elts {
 		x := env.compile(e, 0)
+		if mp, ok := x.T.Underlying().(*types.Map); ok {
+			// m[*]: the entries of the map m
+			d, l, vs := mapKeys(mp)
+			for _, k := range append([]string{d, l}, vs...) {
+				srt := keySortReg[k]
+				st.heap.m[k] = Store(st.heap.Get(k, srt), x.one(), Fresh(k+".mod", srt.Elem))
+			}
+			return
+		}
 		sl, ok := x.T.Underlying().(*types.Slice)
 		if !ok {
 			cfail("%s[*]: not a slice", e)
